@@ -250,7 +250,13 @@ impl Mac {
                 // No RX windows follow this uplink; the caller completes with rx2_complete().
                 let (mut tx_config, _) =
                     self.region.create_tx_config(rng, self.configuration.data_rate, &Frame::Data);
-                tx_config.adjust_power(self.board_eirp.max_power, self.board_eirp.antenna_gain);
+                // like any other uplink: the level commanded by the network, never above the radio's limit
+                tx_config.adjust_power(
+                    self.configuration
+                        .tx_power
+                        .map_or(self.board_eirp.max_power, |p| p.min(self.board_eirp.max_power)),
+                    self.board_eirp.antenna_gain,
+                );
                 (tx_config, fcnt_up)
             })
     }
